@@ -606,7 +606,21 @@ func (mgr *Manager) invalidateTags(updatedStreams, resetStreams, addedStreams bi
 			//TODO: is a matching stream really uncertain?
 			tin.Uncertain = mgr.allStreams
 		} else if ti.features.MainFeatures&^query.FeatureFilterID == 0 {
-			continue
+			// id filters can't change their result for existing streams, but new streams have to be decided
+			if addedStreams.IsZero() {
+				continue
+			}
+			if ids, ok := tin.Conditions.StreamIDs(mgr.nextStreamID); ok {
+				ids.And(addedStreams)
+				tin.Matches = ti.Matches.Copy()
+				tin.Matches.Or(ids)
+				for _, converter := range tin.converters {
+					mgr.streamsToConvert[converter.Name()].Or(ids)
+				}
+			} else {
+				tin.Uncertain = ti.Uncertain.Copy()
+				tin.Uncertain.Or(addedStreams)
+			}
 		} else {
 			tin.Uncertain = ti.Uncertain.Copy()
 			tin.Uncertain.Or(addedStreams)
